@@ -81,9 +81,9 @@ package bytesconv
 // ---- the abstract reader: assumed contracts of network.Reader (its implementation is C13, not applicable) ----
 // pos: bytes consumed so far; wire(r, k): k-th byte of the stream; avail: bytes buffered and not yet
 // consumed; failed: a Peek has reported an error.
-//@ ghost field network.Reader.pos int
-//@ ghost field network.Reader.avail int
-//@ ghost field network.Reader.failed bool
+//@ ghost field *.pos int
+//@ ghost field *.avail int
+//@ ghost field *.failed bool
 
 //@ interface network.Reader.Peek(this, n) p, err
 //@   modifies this.avail, this.failed, mem
@@ -117,6 +117,8 @@ package bytesconv
 //@   requires r != nil
 //@   modifies r.pos, r.avail, r.failed, mem
 //@   allocates
+//@   assert before Skip#3: 0 <= k && k < 16
+//@   assert before Skip#3: i <= 14 && n < 72057594037927936 && k == hexv(wire(r, r.pos))
 //@   top-ensures err == nil && !r.failed ==> old(r.pos) < r.pos && r.pos <= old(r.pos) + 15 && 0 <= n && n == foldHexW(r, old(r.pos), r.pos, 0) && hexv(wire(r, r.pos)) == 16
 //@   loop 0:
 //@     invariant 0 <= i && i <= 15 && r.pos == old(r.pos) + i && 0 <= n && n < pow16(i) && (old(r.failed) ==> r.failed)
